@@ -51,7 +51,7 @@ struct Cfg {
 }
 
 fn split(s: &str, g: bool) -> Vec<String> {
-    CharString::split(s, g).map(|c| c.to_string()).collect()
+    vh::split_clusters(s, g).map(|c| c.to_string()).collect()
 }
 
 /// the predicates of corrupt_spelling (nested fns there, rebuilt from the public
@@ -661,6 +661,11 @@ fn gen_word(rng: &mut Rng, g: bool, seam: bool) -> String {
         3 | 4 => 2,
         _ => rng.range(2, 7),
     };
+    // one word in four is pure ASCII (the word on which an `is_ascii()` shortcut would be taken) while the edit
+    // strings of the tables keep their multi-code-point clusters
+    if rng.chance(1, 4) {
+        return (0..n).map(|_| *rng.pick(&["a", "b", "c", "0", ".", "-"])).collect();
+    }
     (0..n).map(|_| unit(rng, g, seam)).collect()
 }
 
